@@ -190,7 +190,11 @@ PAYLOADS = {}
 def payload_fn(pl):
     def run(*a, **k):
         if pl['rebinds']:
-            sys.stdout = io.StringIO(); sys.stderr = io.StringIO()
+            if pl.get('rebind_to') == 'devnull':
+                # (a leftover redirect to a file, the `sys.stdout = sys.__stdout__` idiom: the new stream is no buffer)
+                sys.stdout = open(os.devnull, 'w'); sys.stderr = open(os.devnull, 'w')
+            else:
+                sys.stdout = io.StringIO(); sys.stderr = io.StringIO()
         for x in pl['out']: print('o%d' % x)
         for x in pl['err']: print('e%d' % x, file=sys.stderr)
         for k_, v in pl['edits']:
@@ -300,6 +304,7 @@ def gen_payload(rng):
           'rebinds': rng.random() < 0.15, 'returns': rng.randint(0, 99), 'raises': None}
     if rng.random() < 0.3: pl['raises'] = rng.randint(1, 9)
     pl['unresolved'] = None
+    if pl['rebinds'] and rng.random() < 0.5: pl['rebind_to'] = 'devnull'
     return pl
 
 
